@@ -1,12 +1,12 @@
 """C02 - section and segment contents, string tables and address mapping are exact."""
 from symx.api import H
 from spec import enc
-from harness.elfkit import stream_length, elf_object
+from harness.elfkit import stream_length, elf_object, phdr
 from spec import elf_layout as L
 
 PROPERTY = 'C02'
 ASSUMPTIONS = [
-    'zlib is environment: modelled by contract (inflate of the registered payload = its plain bytes; decompress(d, max_length) returns at most max_length bytes, 0 = unlimited; leftover input is kept in unconsumed_tail; unregistered symbolic bytes are garbage -> zlib.error)',
+    'zlib is environment: modelled by contract (inflate of the registered payload = its plain bytes; decompress(d, max_length) returns at most max_length bytes, 0 = unlimited; input not consumed is returned in unconsumed_tail - never empty while output is pending, like the trailer of a real zlib stream; unregistered symbolic bytes are garbage -> zlib.error)',
     'section extents lie inside the image (well-formed); section_in_segment: the section does not wrap the 64-bit space (sh_offset+sh_size, sh_addr+sh_size < 2^64)',
     'string-table content is ASCII (the CPython UTF-8 codec is not modelled)',
 ]
@@ -114,7 +114,12 @@ def h_segment(ctx):
     size = ctx.int_range('p_filesz', 0, cfg['maxsize'])
     ctx.assume(off + size <= n)
     st = ctx.stream(cells)
-    seg = SEG.Segment({'p_type': 'PT_LOAD', 'p_offset': off, 'p_filesz': size}, st)
+    # a complete program header; the fields the extent does not depend on are unconstrained (p_memsz may be smaller than p_filesz
+    # for everything but PT_LOAD: the note segment of a core file has p_memsz = 0)
+    hdr = {'p_type': ctx.choice('p_type', ['PT_NOTE', 'PT_LOAD', 'PT_PHDR', 'PT_GNU_STACK', 0x60000001]), 'p_offset': off, 'p_filesz': size,
+           'p_memsz': ctx.uint('p_memsz', 64), 'p_vaddr': ctx.uint('p_vaddr', 64), 'p_paddr': ctx.uint('p_paddr', 64), 'p_flags': ctx.uint('p_flags', 32),
+           'p_align': ctx.uint('p_align', 64)}
+    seg = SEG.Segment(hdr, st)
     st.seek(1)
     d = seg.data()
     ctx.outcome('ok')
@@ -130,7 +135,7 @@ def h_interp(ctx):
     cells = [ctx.int_range('f[%d]' % i, 0, 127) for i in range(n)]
     off = ctx.int_range('p_offset', 0, n - 1)
     st = ctx.stream(cells)
-    seg = SEG.InterpSegment({'p_type': 'PT_INTERP', 'p_offset': off, 'p_filesz': n}, st)
+    seg = SEG.InterpSegment(phdr(p_type='PT_INTERP', p_offset=off, p_filesz=n, p_memsz=n), st)
     o = ctx.concretize(off)
     end = None
     for i in range(o, n):
@@ -162,7 +167,7 @@ def h_text(ctx):
     raw = list(text.encode('utf-8'))
     pre = cfg.get('pre', 0)
     image = [0x41] * pre + raw + [0] + [0x42] * 3
-    seg = SEG.InterpSegment({'p_type': 'PT_INTERP', 'p_offset': pre, 'p_filesz': len(raw) + 1}, ctx.stream(image))
+    seg = SEG.InterpSegment(phdr(p_type='PT_INTERP', p_offset=pre, p_filesz=len(raw) + 1, p_memsz=len(raw) + 1), ctx.stream(image))
     ctx.outcome('ok')
     ctx.check_eq('text/interp', seg.get_interp_name(), text)
     elf = _Elf(ctx, ctx.stream(image), 64, True)
